@@ -62,7 +62,7 @@ def run(ctx, report: Report) -> None:
     imm = set(['css_types.Immutable'] + src.subclasses('css_types.Immutable'))
 
     # ---- shared classes ---------------------------------------------------------------------------------
-    r1 = report.rule('C14-R1', 'no shared mutable state is written after import', floor=2)
+    r1 = report.rule('C14-R1', 'no shared mutable state is written after import', floor=1)
     shared: dict[str, str] = {}       # class qual -> where retained
 
     def retained_ctor_classes(mod, value, where):
@@ -262,7 +262,7 @@ def run(ctx, report: Report) -> None:
                 key='scan', nontrivial=False)
 
     # ---- R2 ------------------------------------------------------------------------------------------------
-    r2 = report.rule('C14-R2', 'parser and matcher objects are call-local', floor=6)
+    r2 = report.rule('C14-R2', 'parser and matcher objects are call-local', floor=4)
     percall = {'css_parser.CSSParser', 'css_match.CSSMatch', 'css_parser._Selector', 'css_match._FakeParent'}
     # further per-call classes: package classes that are not value classes and are only ever constructed inside functions (a parse
     # state, a cursor, a context object): storing a per-call object in a field of such an object does not publish it
